@@ -30,6 +30,7 @@ import (
 	"strings"
 	"sync"
 	"sync/atomic"
+	"testing"
 	"time"
 
 	crand "crypto/rand"
@@ -37,6 +38,7 @@ import (
 	"github.com/cbeuw/Cloak/internal/common"
 	mux "github.com/cbeuw/Cloak/internal/multiplex"
 	"github.com/cbeuw/Cloak/internal/server/usermanager"
+	log "github.com/sirupsen/logrus"
 )
 
 // ------------------------------------------------------------------------------------------
@@ -809,4 +811,73 @@ func vfC17RunScenario(dir, id string, now int64, users string, steps []string) (
 		r.close()
 	}
 	return
+}
+
+// vfC17RunFile: the scenario loop shared by TestVerifC17 and TestVerifC16 (special lines starting
+// with '!' are handed to the callback)
+func vfC17RunFile(t *testing.T, special func(dir, line string) string) {
+	in := os.Getenv("VERIF_IN")
+	out := os.Getenv("VERIF_OUT")
+	if in == "" || out == "" {
+		t.Skip("VERIF_IN / VERIF_OUT not set")
+	}
+	log.SetOutput(io.Discard)
+	data, err := os.ReadFile(in)
+	if err != nil {
+		t.Fatal(err)
+	}
+	fo, err := os.Create(out)
+	if err != nil {
+		t.Fatal(err)
+	}
+	defer fo.Close()
+	dir, err := os.MkdirTemp("", "vfc17")
+	if err != nil {
+		t.Fatal(err)
+	}
+	defer os.RemoveAll(dir)
+	dumpDir := os.Getenv("VERIF_DUMP")
+	if dumpDir == "" {
+		dumpDir = filepath.Dir(out)
+	}
+	fmt.Fprintf(fo, "#cfg patched=%s\n", vfC17B(vfC17Patched()))
+	stuck := 0
+	for _, ln := range strings.Split(string(data), "\n") {
+		f := strings.Fields(ln)
+		if len(f) == 0 {
+			continue
+		}
+		if f[0][0] == '!' {
+			if special != nil {
+				fmt.Fprintln(fo, special(dir, f[0]))
+			}
+			continue
+		}
+		if len(f) < 5 {
+			continue
+		}
+		if stuck >= 3 {
+			fmt.Fprintf(fo, "%s SKIPPED-after-repeated-deadlocks\n", f[0])
+			continue
+		}
+		var now int64
+		fmt.Sscan(f[2], &now)
+		obs, replay, orphans, blocked, hang, sesInfo := vfC17RunScenario(dir, f[0], now, f[3], f[4:])
+		fmt.Fprintf(fo, "%s %s\n", f[0], strings.Join(obs, " "))
+		fmt.Fprintf(fo, "#replay %s %s %s %s %s\n", f[0], f[1], f[2], f[3], strings.Join(replay, " "))
+		fmt.Fprintf(fo, "#ses %s%s\n", f[0], sesInfo)
+		if len(orphans) > 0 {
+			fmt.Fprintf(fo, "#orph %s %s\n", f[0], strings.Trim(strings.Join(strings.Fields(fmt.Sprint(orphans)), ","), "[]"))
+		}
+		if len(blocked) > 0 {
+			stuck++
+			fmt.Fprintf(fo, "#blocked %s %s\n", f[0], strings.Trim(strings.Join(strings.Fields(fmt.Sprint(blocked)), ","), "[]"))
+		}
+		if hang != "" {
+			p := filepath.Join(dumpDir, "hang_"+f[0]+".txt")
+			os.WriteFile(p, []byte(hang), 0644)
+			fmt.Fprintf(fo, "#hang %s %s\n", f[0], p)
+		}
+	}
+	fo.Sync()
 }
